@@ -407,3 +407,259 @@ Proof.
   unfold sc_core_refutes. rewrite negb_true_iff, sc_decide_false. intros Hn H. apply Hn.
   destruct (select_split mask orders) as (rest & HP). eapply sc_sub; eassumption.
 Qed.
+
+(* ============================================================================================== *)
+(* 7. the polynomial reference: nested conflict sets from some first voter                        *)
+(* ============================================================================================== *)
+Lemma changes_delete_block l1 m l2 : changes (l1 ++ l2) <= changes (l1 ++ m ++ l2).
+Proof.
+  induction m as [|x m IH]; [simpl; lia|].
+  eapply Nat.le_trans; [exact IH|]. simpl app. apply changes_delete.
+Qed.
+
+(* three entries of a sequence with at most one change *)
+Lemma changes_three x m1 y m2 z m3 :
+  changes (x :: m1 ++ y :: m2 ++ z :: m3) <= 1 -> xorb x y = true -> xorb x z = true.
+Proof.
+  intros H Hxy.
+  assert (H3 : changes [x; y; z] <= 1).
+  { eapply Nat.le_trans; [|exact H].
+    eapply Nat.le_trans; [|apply (changes_delete_block [x] m1 (y :: m2 ++ z :: m3))].
+    eapply Nat.le_trans; [|apply (changes_delete_block [x; y] m2 (z :: m3))].
+    pose proof (changes_delete_block [x; y; z] m3 []) as H0. rewrite !app_nil_r in H0. exact H0. }
+  destruct x, y, z; simpl in *; try reflexivity; try discriminate; lia.
+Qed.
+
+Lemma conflict_same v a b : conflict v v a b = false.
+Proof. unfold conflict. apply xorb_nilpotent. Qed.
+
+Lemma conf_sub_spec alts v j k :
+  conf_sub alts v j k = true <->
+  forall a b, In a alts -> In b alts -> conflict v j a b = true -> conflict v k a b = true.
+Proof.
+  unfold conf_sub. rewrite forallb_forall. split.
+  - intros H a b Ha Hb Hc. specialize (H a Ha). rewrite forallb_forall in H. specialize (H b Hb).
+    rewrite Hc in H. exact H.
+  - intros H a Ha. rewrite forallb_forall. intros b Hb. specialize (H a b Ha Hb).
+    destruct (conflict v j a b); [rewrite H; reflexivity|reflexivity].
+Qed.
+
+Lemma conf_sub_first alts v k : conf_sub alts v v k = true.
+Proof. apply conf_sub_spec. intros a b _ _ H. rewrite conflict_same in H. discriminate. Qed.
+
+Lemma conf_sub_refl alts v j : conf_sub alts v j j = true.
+Proof. apply conf_sub_spec. auto. Qed.
+
+Lemma conf_sub_trans alts v i j k :
+  conf_sub alts v i j = true -> conf_sub alts v j k = true -> conf_sub alts v i k = true.
+Proof. rewrite !conf_sub_spec. intros H1 H2 a b Ha Hb Hc. apply H2; auto. Qed.
+
+Lemma two_members {T} (x y : T) (l : list T) : In x l -> In y l ->
+  x = y \/ (exists l1 l2 l3, l = l1 ++ x :: l2 ++ y :: l3) \/ (exists l1 l2 l3, l = l1 ++ y :: l2 ++ x :: l3).
+Proof.
+  intros Hx Hy. apply in_split in Hx. destruct Hx as (l1 & l2 & ->).
+  apply in_app_iff in Hy. destruct Hy as [Hy|[Hy|Hy]].
+  - apply in_split in Hy. destruct Hy as (k1 & k2 & ->). right. right.
+    exists k1, k2, l2. rewrite <- app_assoc. reflexivity.
+  - now left.
+  - apply in_split in Hy. destruct Hy as (k1 & k2 & ->). right. left. exists l1, k1, k2. reflexivity.
+Qed.
+
+(* along a single-crossing sequence v :: t the conflict sets with v grow *)
+Lemma sc_seq_conf_sub alts v t1 j t2 k t3 :
+  single_crossing_seq alts (v :: t1 ++ j :: t2 ++ k :: t3) -> conf_sub alts v j k = true.
+Proof.
+  intros H. apply conf_sub_spec. intros a b Ha Hb Hc.
+  destruct (N.eq_dec a b) as [->|Hne].
+  - unfold conflict in Hc. rewrite !prefers_same in Hc. discriminate.
+  - specialize (H a b Ha Hb Hne). rewrite switches_changes in H.
+    cbn [map] in H. rewrite map_app in H. cbn [map] in H. rewrite map_app in H. cbn [map] in H.
+    unfold conflict in *. eapply changes_three; eassumption.
+Qed.
+
+Lemma sc_seq_chain alts v t : single_crossing_seq alts (v :: t) ->
+  forall j k, In j (v :: t) -> In k (v :: t) -> conf_sub alts v j k = true \/ conf_sub alts v k j = true.
+Proof.
+  intros H j k Hj Hk.
+  destruct Hj as [<-|Hj]; [left; apply conf_sub_first|].
+  destruct Hk as [<-|Hk]; [right; apply conf_sub_first|].
+  destruct (two_members j k t Hj Hk) as [->|[(l1 & l2 & l3 & ->)|(l1 & l2 & l3 & ->)]].
+  - left. apply conf_sub_refl.
+  - left. eapply sc_seq_conf_sub. eassumption.
+  - right. eapply sc_seq_conf_sub. eassumption.
+Qed.
+
+(* existence of a sorted arrangement for a relation that is transitive, and total on the list *)
+Lemma sort_exists {T} (le : T -> T -> Prop) (l : list T) :
+  (forall x y z, le x y -> le y z -> le x z) ->
+  (forall x y, In x l -> In y l -> le x y \/ le y x) ->
+  exists s, Permutation l s /\ StronglySorted le s.
+Proof.
+  intros Htr. induction l as [|x l IH]; intros Htot.
+  - exists []. split; constructor.
+  - destruct IH as (s & HP & Hs).
+    { intros y z Hy Hz. apply Htot; now right. }
+    assert (Hx : forall y, In y s -> le x y \/ le y x).
+    { intros y Hy. apply Htot; [now left|right]. eapply Permutation_in; [apply Permutation_sym; eassumption|assumption]. }
+    clear Htot.
+    assert (Hins : exists s', Permutation (x :: s) s' /\ StronglySorted le s').
+    { clear HP. induction Hs as [|y t Ht IHt Hall].
+      - exists [x]. split; [apply Permutation_refl|]. constructor; constructor.
+      - destruct (Hx y (or_introl eq_refl)) as [Hxy|Hyx].
+        + exists (x :: y :: t). split; [apply Permutation_refl|].
+          constructor; [constructor; assumption|]. constructor; [assumption|].
+          rewrite Forall_forall in *. intros z Hz. eapply Htr; [exact Hxy|]. now apply Hall.
+        + destruct IHt as (s' & HP' & Hs'). { intros z Hz. apply Hx. now right. }
+          exists (y :: s'). split.
+          * eapply Permutation_trans; [apply perm_swap|]. now constructor.
+          * constructor; [assumption|]. rewrite Forall_forall in *. intros z Hz.
+            assert (Hz' : In z (x :: t)) by (eapply Permutation_in; [apply Permutation_sym; eassumption|assumption]).
+            destruct Hz' as [<-|Hz']; [assumption|now apply Hall]. }
+    destruct Hins as (s' & HP' & Hs'). exists s'. split; [|assumption].
+    eapply Permutation_trans; [|exact HP']. now constructor.
+Qed.
+
+(* a non-decreasing boolean sequence, i.e. some falses followed by some trues, has at most one change *)
+Lemma changes_all_true t : Forall (fun y => y = true) t -> changes (true :: t) = 0.
+Proof.
+  intros H. apply const_changes. apply forallb_forall. rewrite Forall_forall in H.
+  intros y Hy. rewrite (H y Hy). reflexivity.
+Qed.
+
+Lemma changes_sorted l : StronglySorted (fun x y => x = true -> y = true) l -> changes l <= 1.
+Proof.
+  induction 1 as [|x t Ht IH Hall]; [simpl; lia|].
+  destruct x.
+  - rewrite changes_all_true; [lia|]. rewrite Forall_forall in *. intros y Hy. now apply Hall.
+  - destruct t as [|y t']; [simpl; lia|]. rewrite changes_cons2. destruct y.
+    + inversion Ht as [|? ? Ht' Hall']; subst. rewrite changes_all_true; [simpl; lia|].
+      rewrite Forall_forall in *. intros z Hz. now apply Hall'.
+    + simpl. exact IH.
+Qed.
+
+Lemma changes_xorb x l : changes (map (xorb x) l) = changes l.
+Proof.
+  induction l as [|y t IH]; [reflexivity|]. destruct t as [|z t']; [reflexivity|].
+  cbn [map] in *. rewrite !changes_cons2, IH. destruct x, y, z; reflexivity.
+Qed.
+
+Lemma sorted_conflict alts v a b s : In a alts -> In b alts ->
+  StronglySorted (fun j k => conf_sub alts v j k = true) s ->
+  StronglySorted (fun x y => x = true -> y = true) (map (fun o => conflict v o a b) s).
+Proof.
+  intros Ha Hb. induction 1 as [|j t Ht IH Hall]; [constructor|].
+  cbn [map]. constructor; [assumption|]. rewrite Forall_forall in *. intros y Hy.
+  apply in_map_iff in Hy. destruct Hy as (k & <- & Hk). intros Hc.
+  specialize (Hall k Hk). rewrite conf_sub_spec in Hall. now apply Hall.
+Qed.
+
+Lemma sorted_conflict_sc alts v s :
+  StronglySorted (fun j k => conf_sub alts v j k = true) s -> single_crossing_seq alts s.
+Proof.
+  intros Hs a b Ha Hb _. rewrite switches_changes.
+  rewrite (map_ext _ (fun o => xorb (prefers v a b) (conflict v o a b))).
+  - rewrite <- map_map, changes_xorb. apply changes_sorted. now apply (sorted_conflict alts).
+  - intros o. unfold conflict. rewrite <- xorb_assoc, xorb_nilpotent, xorb_false_l. reflexivity.
+Qed.
+
+Lemma chain_from_spec alts orders v :
+  chain_from alts orders v = true <->
+  forall j k, In j orders -> In k orders -> conf_sub alts v j k = true \/ conf_sub alts v k j = true.
+Proof.
+  unfold chain_from. rewrite forallb_forall. split.
+  - intros H j k Hj Hk. specialize (H j Hj). rewrite forallb_forall in H. specialize (H k Hk).
+    now apply orb_true_iff.
+  - intros H j Hj. rewrite forallb_forall. intros k Hk. apply orb_true_iff. now apply H.
+Qed.
+
+Lemma chain_from_sc alts orders v : chain_from alts orders v = true -> SC alts orders.
+Proof.
+  intros H. rewrite chain_from_spec in H.
+  destruct (sort_exists (fun j k => conf_sub alts v j k = true) orders) as (s & HP & Hs).
+  - intros x y z. apply conf_sub_trans.
+  - exact H.
+  - exists s. split; [assumption|]. eapply sorted_conflict_sc. eassumption.
+Qed.
+
+(* a profile is single-crossing iff it is empty or some voter's conflict sets with all the
+   voters are nested — no well-formedness hypothesis is needed *)
+Theorem sc_conflict_decide_correct alts orders : sc_conflict_decide alts orders = true <-> SC alts orders.
+Proof.
+  unfold sc_conflict_decide. destruct orders as [|o0 rest] eqn:E.
+  - split; [|reflexivity]. intros _. exists []. split; [constructor|]. intros a b _ _ _. simpl. lia.
+  - rewrite <- E. rewrite existsb_exists. split.
+    + intros (v & _ & Hv). eapply chain_from_sc. eassumption.
+    + intros (s & HP & Hs). destruct s as [|v t].
+      * apply Permutation_sym, Permutation_nil in HP. rewrite E in HP. discriminate.
+      * exists v. split; [eapply Permutation_in; [apply Permutation_sym; eassumption|now left]|].
+        apply chain_from_spec. intros j k Hj Hk. eapply sc_seq_chain; try eassumption.
+        -- eapply Permutation_in; eassumption.
+        -- eapply Permutation_in; eassumption.
+Qed.
+
+Corollary sc_conflict_decide_eq alts orders : sc_conflict_decide alts orders = sc_decide alts orders.
+Proof.
+  assert (E : sc_conflict_decide alts orders = true <-> sc_decide alts orders = true).
+  { rewrite sc_conflict_decide_correct, sc_decide_correct. tauto. }
+  destruct (sc_conflict_decide alts orders), (sc_decide alts orders); try reflexivity.
+  - symmetry. now apply E.
+  - now apply E.
+Qed.
+
+(* ============================================================================================== *)
+(* 8. repeated orders (multiplicities) do not matter                                              *)
+(* ============================================================================================== *)
+Lemma changes_dup l1 x l2 : changes (l1 ++ x :: x :: l2) = changes (l1 ++ x :: l2).
+Proof.
+  induction l1 as [|z t IH].
+  - simpl app. rewrite changes_cons2, eqb_reflx. reflexivity.
+  - destruct t as [|w t'].
+    + simpl app. rewrite (changes_cons2 z x (x :: l2)), (changes_cons2 z x l2).
+      rewrite (changes_cons2 x x l2), eqb_reflx. reflexivity.
+    + change ((z :: w :: t') ++ x :: x :: l2) with (z :: w :: (t' ++ x :: x :: l2)).
+      change ((z :: w :: t') ++ x :: l2) with (z :: w :: (t' ++ x :: l2)).
+      rewrite !changes_cons2.
+      change (w :: t' ++ x :: x :: l2) with ((w :: t') ++ x :: x :: l2).
+      change (w :: t' ++ x :: l2) with ((w :: t') ++ x :: l2). rewrite IH. reflexivity.
+Qed.
+
+Lemma sc_add_dup alts x l : In x l -> SC alts l -> SC alts (x :: l).
+Proof.
+  intros Hin (s & HP & H).
+  assert (Hs : In x s) by (eapply Permutation_in; eassumption).
+  apply in_split in Hs. destruct Hs as (s1 & s2 & ->).
+  exists (s1 ++ x :: x :: s2). split.
+  - apply Permutation_cons_app. exact HP.
+  - intros a b Ha Hb Hne. specialize (H a b Ha Hb Hne).
+    rewrite switches_changes in *. rewrite map_app in *. cbn [map] in *. rewrite changes_dup. exact H.
+Qed.
+
+Lemma dedup_In x l : In x (dedup l) <-> In x l.
+Proof.
+  induction l as [|y t IH]; [tauto|]. simpl. destruct (mem_order y t) eqn:E.
+  - rewrite IH. apply mem_order_In in E. split; [auto|]. intros [<-|?]; auto.
+  - simpl. rewrite IH. tauto.
+Qed.
+
+Lemma dedup_NoDup l : NoDup (dedup l).
+Proof.
+  induction l as [|y t IH]; [constructor|]. simpl. destruct (mem_order y t) eqn:E; [assumption|].
+  constructor; [|assumption]. rewrite dedup_In. intros Hin. apply mem_order_In in Hin. congruence.
+Qed.
+
+Lemma sc_undedup alts pre l : SC alts (pre ++ dedup l) -> SC alts (pre ++ l).
+Proof.
+  revert pre. induction l as [|x t IH]; intros pre H; [exact H|].
+  simpl in H. destruct (mem_order x t) eqn:E.
+  - apply mem_order_In in E. apply IH in H.
+    eapply sc_perm; [|apply (sc_add_dup alts x (pre ++ t)); [apply in_app_iff; now right|exact H]].
+    apply Permutation_sym, Permutation_middle.
+  - specialize (IH (pre ++ [x])). rewrite <- !app_assoc in IH. now apply IH.
+Qed.
+
+Theorem sc_dedup alts orders : SC alts (dedup orders) <-> SC alts orders.
+Proof.
+  split.
+  - apply (sc_undedup alts []).
+  - apply sc_sub_voters_incl; [apply dedup_NoDup|]. intros x. apply dedup_In.
+Qed.
